@@ -145,7 +145,7 @@ Definition doc_conn_early : doc := D [
   ".conn a n1";
   ".subckt INV I=n1 O=y";
   ".end" ].
-(* the second .conn names the cable the first one creates for the merged net *)
+(* the second .conn names the cable the first one used to create for the merged net *)
 Definition doc_conn_capture : doc := D [
   ".model top";
   ".inputs a b c";
@@ -186,6 +186,23 @@ Definition doc_hier : doc := D [
   ".outputs O";
   ".blackbox";
   ".end" ].
+(* .conn in any order and in chains: the first one stands before the statement that uses net b, the second
+   names b again (b stands for a by then), the third joins two names of what is one net already *)
+Definition doc_conn_chain : doc := D [
+  ".model top";
+  ".inputs a b c d";
+  ".outputs y";
+  ".conn a b";
+  ".subckt INV I=b O=y";
+  ".conn b c";
+  ".conn c a";
+  ".end" ].
+(* the top-level pins a, b, c, d of doc_conn_capture / doc_conn_chain, and pin I of the first instance *)
+Definition pin_a : pinref := PTop (s2l "a") 0.
+Definition pin_b : pinref := PTop (s2l "b") 0.
+Definition pin_c : pinref := PTop (s2l "c") 0.
+Definition pin_d : pinref := PTop (s2l "d") 0.
+Definition pin_i0 : pinref := PInst 0 (s2l "I") 0.
 End C18Docs2.
 Export C18Docs2.
 
@@ -235,31 +252,46 @@ Proof.
   specialize (Hn eq_refl _ eq_refl (PTop [97%N] 0) (PInst 0 [73%N] 0)).
   destruct Hn as [_ Hn].
   match type of Hn with ?P -> _ => assert (HP : P) end.
-  { exists ([97%N], 0), ([97%N], 0). vm_compute. split; [left; reflexivity|]. split; [right; right; left; reflexivity|]. left. reflexivity. }
+  { exists ([97%N], 0), ([97%N], 0). vm_compute. split; [left; reflexivity|]. split; [right; right; left; reflexivity|]. apply sb_refl. }
   apply Hn in HP. apply same_wire_b_complete in HP. vm_compute in HP. discriminate.
 Qed.
 
-(* the file joins net a with net b, and a third net called a_0_b_0 with net c; the reader puts the
-   port pins a and c on one wire *)
-Lemma sound_refuted_conn_capture :
-  exists d n, supported d = false /\ elab d = Ok n /\ ~ denote d n.
+(* the file joins net a with net b, and a third net called a_0_b_0 with net c.  Before the repair of
+   merge_wires the reader called the cable of the merged net a_0_b_0, the second .conn found that cable
+   and the port pins a and c ended on one wire.  Now wire a keeps its name and takes the pins of b: the
+   pins a and b share a wire, the pins a_0_b_0 ... there is no such pin; c sits with neither *)
+Lemma conn_capture_repaired :
+  supported doc_conn_capture = true /\
+  exists n m, elab doc_conn_capture = Ok n /\ find_model nm_top (b_models n) = Some m /\
+    same_wire m pin_a pin_b /\ ~ same_wire m pin_a pin_c /\ ~ same_wire m pin_b pin_c /\
+    length (m_cables m) = 5.   (* a, b, c, y and the file's own net a_0_b_0: no invented cable *)
 Proof.
-  exists doc_conn_capture.
+  split; [vm_compute; reflexivity|].
   remember (elab doc_conn_capture) as r eqn:Er. vm_compute in Er. subst r.
-  eexists. split; [vm_compute; reflexivity|]. split; [reflexivity|].
-  intros [ss [Hg [HF _]]].
-  vm_compute in Hg. inversion Hg; subst ss. clear Hg.
-  destruct (HF nm_top (or_introl eq_refl)) as [[_ _ _ Hn _] _].
-  specialize (Hn eq_refl _ eq_refl (PTop [97%N] 0) (PTop [99%N] 0)).
-  destruct Hn as [Hn _].
-  match type of Hn with ?P -> _ => assert (HP : P) end.
-  { eexists. eexists. split; [right; right; right; right; right; left; reflexivity|].
-    split; [left; reflexivity|]. split; [left; reflexivity|]. right. right. right. left. reflexivity. }
-  apply Hn in HP. destruct HP as [x [y [Hx [Hy Hs]]]]. vm_compute in Hx, Hy.
-  repeat (destruct Hx as [Hx|Hx]; [inversion Hx; subst x|]); try contradiction;
-  repeat (destruct Hy as [Hy|Hy]; [inversion Hy; subst y|]); try contradiction.
-  vm_compute in Hs. destruct Hs as [Hs|[Hs|Hs]]; [discriminate| |];
-    repeat (destruct Hs as [Hs|Hs]; [discriminate|]); contradiction.
+  eexists. eexists. split; [reflexivity|]. split; [vm_compute; reflexivity|]. split; [|split; [|split]].
+  - eexists. eexists. split; [left; reflexivity|]. split; [left; reflexivity|]. cbn. split; [left; reflexivity|].
+    right. right. left. reflexivity.
+  - intro H. apply same_wire_b_complete in H. vm_compute in H. discriminate.
+  - intro H. apply same_wire_b_complete in H. vm_compute in H. discriminate.
+  - vm_compute. reflexivity.
+Qed.
+
+(* .conn before the statement that uses the net, a net named by two .conn, a .conn between two names of
+   one net: a, b, c and the instance pin on net b share one wire; d has its own *)
+Lemma conn_chain_reads :
+  supported doc_conn_chain = true /\
+  exists n m, elab doc_conn_chain = Ok n /\ find_model nm_top (b_models n) = Some m /\
+    same_wire m pin_a pin_c /\ same_wire m pin_b pin_i0 /\ ~ same_wire m pin_a pin_d /\ length (m_cables m) = 5.
+Proof.
+  split; [vm_compute; reflexivity|].
+  remember (elab doc_conn_chain) as r eqn:Er. vm_compute in Er. subst r.
+  eexists. eexists. split; [reflexivity|]. split; [vm_compute; reflexivity|]. split; [|split; [|split]].
+  - eexists. eexists. split; [left; reflexivity|]. split; [left; reflexivity|]. cbn. split; [left; reflexivity|].
+    right. right. right. left. reflexivity.
+  - eexists. eexists. split; [left; reflexivity|]. split; [left; reflexivity|]. cbn. split; [right; left; reflexivity|].
+    right. right. left. reflexivity.
+  - intro H. apply same_wire_b_complete in H. vm_compute in H. discriminate.
+  - vm_compute. reflexivity.
 Qed.
 
 (* ---------- write-then-read on the example document (by computation) ---------- *)
